@@ -41,6 +41,7 @@ import (
 	_ "golang.org/x/crypto/ripemd160"
 	"verifmc/internal/ev"
 	"verifmc/internal/fx"
+	"verifmc/internal/nohb"
 )
 
 // ---------------------------------------------------------------- keys
@@ -531,6 +532,10 @@ type genSpec struct {
 var startGodebug = os.Getenv("GODEBUG")
 
 func main() {
+	if nohb.IsWorker() {
+		nohb.WorkerMain(reentrantOps(), reentrantRepoDir())
+		return
+	}
 	os.Setenv("GODEBUG", "rsa1024min=0") // crypto/rsa: allow the 512-bit fixture (also set by the //go:debug line)
 	if pf := os.Getenv("VERIF_C23_PPROF"); pf != "" { // tuning aid only
 		if f, err := os.Create(pf); err == nil {
@@ -752,6 +757,7 @@ func main() {
 			byKey[parseUnit(id).key] += t
 		}
 		timeMu.Unlock()
+		reentrantPhase(c)
 		c.Set("unit_seconds_by_section", bySect)
 		c.Set("unit_seconds_by_key", byKey)
 	})
